@@ -86,6 +86,13 @@ def resid_range(run, m):
             AGG = {'resid_mean': ('vmean', 1), 'resid_std': ('vstd', 2), 'resid_skew': ('vskew', 3)}
             stat = [k_ for k_ in AGG if k_ in m.k.name]
             red = [x for x in walk(m.body) if x.get('k') == 'MethodCall' and peel(x['ch'][0]) is e]
+            if not red:
+                # the stream bound to a name first: `let resid = (..).map(..); resid.vskew(3)`
+                held = {s_['pat']['local'] for b_ in walk(m.body) if b_.get('k') == 'Block'
+                        for s_ in b_.get('stmts', []) if s_['k'] == 'Let' and 'init' in s_ and
+                        peel(s_['init']) is e and s_['pat'].get('k') == 'Binding'}
+                red = [x for x in walk(m.body) if x.get('k') == 'MethodCall' and
+                       peel(x['ch'][0]).get('res') == 'local' and peel(x['ch'][0]).get('local') in held]
             if stat:
                 meth, K = AGG[stat[0]]
                 okr = len(red) == 1 and red[0]['method'] == meth
